@@ -372,6 +372,58 @@ func runLifecycle(c *LCase) (st lStats, err error) {
 				return st, err
 			}
 
+		case "setro-fault":
+			// SetReadOnly while a buffer flush is failing: writes must be rejected with the
+			// read-only error (not hang), and Close must return
+			if err := e.DB.VerifWaitIdle(); err != nil {
+				return st, fmt.Errorf("%s: %v", what, err)
+			}
+			wb := e.O.GetWriteBuffer()
+			k1, v1 := key(si), bytes.Repeat([]byte{'R'}, wb/2)
+			if err := e.DB.Put(k1, v1, nil); err != nil {
+				return st, fmt.Errorf("%s: Put: %v", what, err)
+			}
+			e.M.Put(k1, v1)
+			if err := e.DB.VerifWaitIdle(); err != nil {
+				return st, fmt.Errorf("%s: %v", what, err)
+			}
+			e.FS.SetFaults([]vfs.Fault{{Kind: vfs.OpCreate, FType: "table", Nth: 1, Count: -1}})
+			k2, v2 := key(si+1), bytes.Repeat([]byte{'S'}, wb/2+100)
+			if err := e.DB.Put(k2, v2, nil); err == nil {
+				e.M.Put(k2, v2)
+			} else {
+				return st, nil // layout dependent: the Put itself met the failing flush; scene not applicable
+			}
+			time.Sleep(300 * time.Microsecond) // let the flush fail at least once
+			db := e.DB
+			var roErr, putErr error
+			if err := within(20*time.Second, what+": SetReadOnly", func() { roErr = db.SetReadOnly() }); err != nil {
+				return st, err
+			}
+			e.FS.Heal()
+			if roErr == nil {
+				if err := within(20*time.Second, what+": Put after SetReadOnly (issued while a flush was failing)", func() { putErr = db.Put(key(0), []byte("x"), nil) }); err != nil {
+					return st, err
+				}
+				if putErr != leveldb.ErrReadOnly {
+					return st, fmt.Errorf("%s: Put after SetReadOnly returned %v, expected ErrReadOnly", what, putErr)
+				}
+			}
+			if err := readAll(e, db, what+" (read-only after a failing flush)"); err != nil {
+				return st, err
+			}
+			var cerr error
+			if err := within(20*time.Second, what+": Close", func() { cerr = e.Close() }); err != nil {
+				return st, err
+			}
+			_ = cerr
+			if err := e.Open(); err != nil {
+				return st, err
+			}
+			if err := e.Sweep(); err != nil {
+				return st, err
+			}
+
 		case "setro":
 			db := e.DB
 			if err := db.SetReadOnly(); err != nil {
@@ -561,7 +613,7 @@ func drawLCase(t *rapid.T) *LCase {
 	p := &dbm.Profile{Prop: "C18", MinOps: 5, MaxOps: 120, DetPercent: 40,
 		W: map[string]int{"put": 34, "del": 8, "batch": 8, "bigbatch": 1, "get": 4, "compact": 2, "reopen": 1, "idle": 2, "snap": 1, "tropen": 1, "trcommit": 1}}
 	c := &LCase{Base: dbm.Draw(t, p)}
-	c.Scenes = rapid.SliceOfN(rapid.SampledFrom([]string{"roopen", "roopen", "closed", "closed", "setro", "open2", "released", "race", "roopen-pending"}), 1, 5).Draw(t, "scenes")
+	c.Scenes = rapid.SliceOfN(rapid.SampledFrom([]string{"roopen", "roopen", "closed", "closed", "setro", "open2", "released", "race", "roopen-pending", "setro-fault"}), 1, 5).Draw(t, "scenes")
 	c.Reads = rapid.SampledFrom([]int{0, 50, 400, 3000}).Draw(t, "reads")
 	return c
 }
